@@ -9,8 +9,10 @@ import HdwModel.Model.Mnemonic
 import HdwModel.Model.Hdk
 import HdwModel.Driver.NfkdData
 import HdwModel.Model.Tx
+import HdwModel.Model.TypedData
 import HdwModel.Driver.Judge
 import HdwModel.Driver.JudgeTx
+import HdwModel.Driver.JudgeTd
 
 namespace Hdw.Driver
 open Hdw
@@ -151,6 +153,25 @@ def runOp (env : Env) (parts : List String) : Resp :=
         pure (digest, enc)
       ofRes res fun (digest, enc) => [hx digest, hx enc]
     | _, _ => .harness "bad arg"
+  | ["td.hash", j] =>
+    match unhex j with
+    | some j => ofRes (TypedData.parseAndCompute P j) fun d => [hx d.domainSeparator, hx d.messageHash, hx d.digest]
+    | none => .harness "bad arg"
+  | ["td.encode_type", tj, name] =>
+    match unhex tj, utf8Arg name with
+    | some tj, some name =>
+      let r : Res Str :=
+        match Json.parseRaw tj with
+        | some (.obj kv) =>
+          if !SerdeNum.numbersOk (.obj kv) then .err "number" else
+          (TypedData.typesOfJson kv).bind fun ts => TypedData.encodeType ts name
+        | _ => .err "invalid types"
+      ofRes r fun s => [hxStr s]
+    | _, _ => .harness "bad arg"
+  | ["td.kind", a] =>
+    match utf8Arg a with
+    | some s => .ok [hxStr (TypedData.MemberKind.parse s).print]
+    | none => .harness "bad arg"
   | ["json.f64", lit] =>
     match utf8Arg lit with
     | some s =>
@@ -241,6 +262,12 @@ def judgeOp (env : Env) (parts : List String) (resp : String) : Verdict :=
   | ["tx.parse", j] => match unhex j with
     | some j => judgeTxParse j resp
     | none => .skip
+  | ["td.hash", j] => match unhex j with
+    | some j => judgeTdHash j resp
+    | none => .skip
+  | ["td.encode_type", tj, name] => match unhex tj, utf8Arg name with
+    | some tj, some name => judgeEncodeType tj name resp
+    | _, _ => .skip
   | ["hdk.derive", seed, path] => match unhex seed, utf8Arg path with
     | some seed, some path => judgeDerive seed (String.ofList path) resp
     | _, _ => .skip
